@@ -466,6 +466,7 @@ func (a *AndExpr) String() string {
 
 // NullableVisit recursively determines whether an object is nullable.
 func (a *AndExpr) NullableVisit(rules map[string]*Rule) bool {
+	a.Expr.NullableVisit(rules) // computes the flags of the sub-expressions
 	return true
 }
 
@@ -476,7 +477,7 @@ func (a *AndExpr) IsNullable() bool {
 
 // InitialNames returns names of nodes with which an expression can begin.
 func (a *AndExpr) InitialNames() map[string]struct{} {
-	return make(map[string]struct{})
+	return a.Expr.InitialNames()
 }
 
 // NotExpr is a zero-length matcher that is considered a match if the
@@ -503,6 +504,7 @@ func (n *NotExpr) String() string {
 
 // NullableVisit recursively determines whether an object is nullable.
 func (n *NotExpr) NullableVisit(rules map[string]*Rule) bool {
+	n.Expr.NullableVisit(rules) // computes the flags of the sub-expressions
 	return true
 }
 
@@ -513,7 +515,7 @@ func (n *NotExpr) IsNullable() bool {
 
 // InitialNames returns names of nodes with which an expression can begin.
 func (n *NotExpr) InitialNames() map[string]struct{} {
-	return make(map[string]struct{})
+	return n.Expr.InitialNames()
 }
 
 // ZeroOrOneExpr is an expression that can be matched zero or one time.
@@ -540,6 +542,7 @@ func (z *ZeroOrOneExpr) String() string {
 
 // NullableVisit recursively determines whether an object is nullable.
 func (z *ZeroOrOneExpr) NullableVisit(rules map[string]*Rule) bool {
+	z.Expr.NullableVisit(rules) // computes the flags of the sub-expressions
 	return true
 }
 
@@ -577,6 +580,7 @@ func (z *ZeroOrMoreExpr) String() string {
 
 // NullableVisit recursively determines whether an object is nullable.
 func (z *ZeroOrMoreExpr) NullableVisit(rules map[string]*Rule) bool {
+	z.Expr.NullableVisit(rules) // computes the flags of the sub-expressions
 	return true
 }
 
@@ -614,6 +618,7 @@ func (o *OneOrMoreExpr) String() string {
 
 // NullableVisit recursively determines whether an object is nullable.
 func (o *OneOrMoreExpr) NullableVisit(rules map[string]*Rule) bool {
+	o.Expr.NullableVisit(rules) // computes the flags of the sub-expressions
 	return false
 }
 
@@ -973,7 +978,8 @@ func (c *CharClassMatcher) NullableVisit(rules map[string]*Rule) bool {
 
 // IsNullable returns the nullable attribute of the node.
 func (c *CharClassMatcher) IsNullable() bool {
-	return len(c.Chars) == 0 && len(c.Ranges) == 0 && len(c.UnicodeClasses) == 0
+	// a character class consumes exactly one rune or fails, even when it is empty.
+	return false
 }
 
 // InitialNames returns names of nodes with which an expression can begin.
